@@ -34,6 +34,7 @@ type srepo struct {
 	resolved ocispec.Descriptor
 	listing  string // v i u per signature
 	pages    []int
+	failAt   int // > 0: the listing itself fails instead of delivering page number failAt (counted from 0); 0 = never (a first-page failure is an empty listing with an error)
 	wrap     bool
 	blobs    [][]byte // real envelopes (real-verifier mode) or nil
 	blobMT   []string
@@ -61,7 +62,10 @@ func (r *srepo) Resolve(ctx context.Context, ref string) (ocispec.Descriptor, er
 func (r *srepo) ListSignatures(ctx context.Context, desc ocispec.Descriptor, fn func([]ocispec.Descriptor) error) error {
 	r.add("list", -1)
 	i := 0
-	for _, ps := range r.pages {
+	for pi, ps := range r.pages {
+		if r.failAt > 0 && pi == r.failAt {
+			return errors.New("registry: listing failed")
+		}
 		var page []ocispec.Descriptor
 		for k := 0; k < ps; k++ {
 			page = append(page, sigDesc(i))
@@ -182,6 +186,7 @@ type scenario struct {
 	skip    bool
 	wrap    bool
 	real    bool
+	failAt  int // see srepo.failAt
 }
 
 // realCOSE signs a COSE envelope; the signing time is shifted by the index so that the bytes are distinct per position.
@@ -190,7 +195,7 @@ func realCOSE(signer *lib.Ent, artifact ocispec.Descriptor, i int) []byte {
 }
 
 func (s scenario) String() string {
-	return fmt.Sprintf("listing=%q pages=%v N=%d ref=%s skip=%v wrap=%v real=%v", s.listing, s.pages, s.N, s.ref, s.skip, s.wrap, s.real)
+	return fmt.Sprintf("listing=%q pages=%v N=%d ref=%s skip=%v wrap=%v real=%v listing-fails-at-page=%d", s.listing, s.pages, s.N, s.ref, s.skip, s.wrap, s.real, s.failAt)
 }
 
 func main() {
@@ -234,6 +239,18 @@ func main() {
 			}
 		}
 	}
+	// the listing itself fails part-way (a registry error on a later page): what was listed before still counts - a good
+	// signature among it (within the limit, nothing unfetchable before it) is a success, anything else an error
+	frng := r.Rand("listing-failures")
+	for k := 0; k < r.N(20000, 300000); k++ {
+		ls := listings[frng.Intn(len(listings))]
+		pgs := pagings(len(ls), true)
+		pg := pgs[frng.Intn(len(pgs))]
+		if len(pg) < 2 {
+			continue
+		}
+		scen = append(scen, scenario{listing: ls, pages: pg, N: 1 + frng.Intn(7), ref: []string{"tag", "digest"}[frng.Intn(2)], wrap: frng.Bool(), failAt: 1 + frng.Intn(len(pg)-1)})
+	}
 	// real-verifier sample
 	rng := r.Rand("real-sample")
 	nReal := r.N(600, 200000)
@@ -263,7 +280,14 @@ func main() {
 	lib.Parallel(len(scen), 16, func(si int) {
 		s := scen[si]
 		n := len(s.listing)
-		repo := &srepo{resolved: artifact, listing: s.listing, pages: s.pages, wrap: s.wrap}
+		repo := &srepo{resolved: artifact, listing: s.listing, pages: s.pages, wrap: s.wrap, failAt: s.failAt}
+		if s.failAt > 0 { // only the signatures of the pages delivered before the failure were ever listed
+			n = 0
+			for _, ps := range s.pages[:s.failAt] {
+				n += ps
+			}
+			r.Event("listing-failure-scenarios")
+		}
 		var v notation.Verifier
 		if s.real {
 			repo.blobs = make([][]byte, n)
